@@ -7,32 +7,32 @@ ALL = ["C%02d" % i for i in range(1, 21)]
 # property -> (category, technique, level text, level note, design ref)
 CHECKS = {
  "C01": ("exploration", "reference-model monitor (withheld-count formula) over generated + small-scope-exhaustive packetmap histories and over the real rtpDownTrack.Write",
-   "Every output of packetmap.Map (public API) and of the real forwarding path is compared with seqno minus the number of earlier withheld packets, with 'withheld' observed, over generated arrival histories (loss, duplicates, reordering, wrap, >66000-packet streams) and ALL histories up to a small depth over an 8-letter alphabet. Held on the executions observed.",
+   "Every output of packetmap.Map (public API) and of the real forwarding path is compared with seqno minus the number of earlier withheld packets, with 'withheld' observed, over generated arrival histories (loss, duplicates, reordering, wrap, >66000-packet streams, exactly 2^16 withheld packets) and ALL histories up to a small depth over an 8-letter alphabet. Held on the executions observed.",
    "Quantifier restricted to the 8192-packet window as the property states; exhaustive only for the stated small sub-space; direct-drive uses the verif shim (no logic) and a capturing write stream; an end-to-end tier checks what real early and late subscriber PeerConnections receive against the server's own record of withheld packets (verif trace point at the successful packetmap.Drop): numbers differ by the source distance minus the withheld packets in between, a withheld packet is never received, copies keep their number; packets lost in transit keep their gap.", "5/C01"),
  "C02": ("exploration", "input/output packet diff with pion's independent depacketisers at the down track's write stream + end-to-end diff at real SRTP subscribers against the server's trace of withheld frames",
-   "Every forwarded packet is diffed field by field against its source packet (length, timestamp, header, payload outside the picture-id field), markers only ever set on the last packet of a frame of the selected spatial layer, VP8 picture ids equal source id minus wholly withheld frames (7/15 bit, wrap); the same comparison at real pion subscribers (incl. a late joiner, REMB-driven drops, 15-bit id wrap) of a real server. Held on the executions observed.",
+   "Every forwarded packet is diffed field by field against its source packet (length up to the server's 1504-byte buffers, timestamp, header, payload outside the picture-id field), markers only ever set on the last packet of a frame of the selected spatial layer, VP8 picture ids equal source id minus wholly withheld frames (7/15 bit, wrap); the same comparison at real pion subscribers (incl. a late joiner, REMB-driven drops, 15-bit id wrap, source packets with header extension and padding) of a real server. Held on the executions observed.",
    "In-order arrival for the picture-id clause (the property's scope); SSRC/PT compared against the binding.", "5/C02"),
  "C03": ("exploration", "log-against-log monitor: first transmissions vs responses to injected NACKs through the real gotNACK; Reverse/Map agreement on the public API",
    "Responses to 7 kinds of NACK sets must be byte-identical to the first transmission under the same number or absent; numbers never sent are never answered; withheld packets never resent. Held on the executions observed; one open known finding (marker recomputed after a spatial switch).",
    "The publisher cache is a real packetcache.Cache filled as the receive loop does; non-vacuity floors on answered NACKs; an end-to-end tier sends NACKs from a real subscriber PeerConnection (no interceptors, replay protection off) and compares the copies it receives.", "5/C03"),
  "C04": ("exploration", "state-machine monitor over the sampled layer word before/after every Write, sequential and concurrent feedback + end-to-end layer-bound monitor (forwarded / withheld evidence at real subscribers)",
-   "The property's switching rules are evaluated on every Write of generated VP8/VP9 streams interleaved with REMB/RR/stale/limit events through the real adjustLayer/updateRate; concurrent writer+feedback histories check that the selection never moves between Writes; loss ceiling bounds after any report sequence; end to end, generated VP9 SVC and VP8 temporal streams go through a real server to pion subscribers that request video / video-low, change the request midway and send REMB phases: bounds on the selected layer derived from in-order forwarded packets and from the server's record of withheld ones never cross inside a picture, between keyframes (spatial), inside a frame or without a switch point (temporal), and a video-low receiver gets nothing above spatial layer 0 after the next keyframe. Held on the executions observed.",
+   "The property's switching rules are evaluated on every Write of generated VP8/VP9 streams interleaved with REMB/RR/stale/limit events through the real adjustLayer/updateRate; concurrent writer+feedback histories check that the selection never moves between Writes; loss ceiling bounds after any report sequence; end to end, generated VP9 SVC and VP8 temporal streams go through a real server (half of the SVC publishers with a microphone in the same stream) to pion subscribers that request video / video-low, change the request midway and send REMB phases: bounds on the selected layer derived from in-order forwarded packets and from the server's record of withheld ones never cross inside a picture, between keyframes (spatial), inside a frame or without a switch point (temporal), and a video-low receiver gets nothing above spatial layer 0 after the next keyframe. Held on the executions observed.",
    "limitSid is set through a 5-line shim copy of replaceTracks' setter; concurrency clause is schedule-dependent (what was observed is reported).", "5/C04"),
  "C05": ("exploration", "reference-model monitor over generated call histories + race detector on concurrent readers",
    "Runs the real packetcache.Cache under generated Store/Get/GetAt/Resize/ResizeCond histories (all seqno orders, sizes 1..1504, capacities 1..65535) with a reference model as oracle, then 1 writer + 1 resizer + 14 self-validating readers under -race. Held on the executions observed; not a proof.",
    "Trusts the Go race detector and the harness model; timestamp/marker words are only observable as part of the stored packet bytes.", "5/C05"),
  "C08": ("exploration", "reference model of galene.md's login rules over descriptions parsed by the real loader + subprocess round trip through the real galenectl",
-   "Generated group descriptions (20 password encodings incl. malformed, roles/raw arrays, obsolete format, recording/token flags) x credentials (right, near-miss, unknown user) are judged by an independent model (own pbkdf2/bcrypt); records printed by the real galenectl binary must verify and reject near misses; history tier: after random moderation actions by an operator on other members of a real server, fresh logins of every entry are granted exactly the configured set. Held on the executions observed.",
+   "Generated group descriptions (20 password encodings incl. malformed, roles/raw arrays, obsolete format, recording/token flags) x credentials (right, near-miss, unknown user) are judged by an independent model (own pbkdf2/bcrypt); records printed by the real galenectl binary must verify and reject near misses; history tier: after random moderation actions by an operator on other members of a real server, fresh logins of every entry are granted exactly the configured set, and a password the administrator replaced through the API by one of the same length (live group) is refused at once. Held on the executions observed.",
    "'For no other password' is read modulo the declared hash function (HMAC zero padding, bcrypt 72-byte limit are the algorithm's verdict, counted not judged).", "5/C08"),
  "C09": ("exploration", "oracle by construction: harness-issued stateful tokens and JWTs with exactly one known perturbation each",
-   "Tokens whose validity is known by construction (scope over path alphabets, time offsets >= 120 s, HS256/384/512, ES256, RS256, kid/no kid, alg none / confusion, audience host and path variants) through token.Parse().Check and Description.GetPermission. Held on the executions observed.",
+   "Tokens whose validity is known by construction (scope over path alphabets, time offsets >= 120 s, HS256/384/512, ES256, RS256, kid/no kid, alg none / confusion, audience host and path variants) through token.Parse().Check and Description.GetPermission, under four loadable server configurations and four that do not load (nothing invalid may be accepted meanwhile). Held on the executions observed.",
    "Time offsets never closer than 120 s to a boundary; harness signs with its own crypto code.", "5/C09"),
 
  "C06": ("exploration", "receive-loop mirror over the real packetcache with generator-derived ground truth (cache tier)",
    "The harness plays the receive loop (Store, trigger rule, BitmapGet, Expect) against the real cache on generated arrival histories (loss, duplicates, reordering <= 256, wrap, restarts) and checks every NACK against its own record of what arrived (never names a received packet, never at/beyond the newest, at most once, steady losses are named), statistics self-consistency at every sample/reset point, and ToBitmap exactness. Held on the executions observed.",
    "The liveness clause is asserted only for steady histories whose generator guarantees the preconditions; the receive-loop tier runs the real readLoop/nackWriter/sendUpRTCP over real PeerConnections, ordered by three verif trace points in rtpconn and cross-checked with the NACKs the publisher receives.", "5/C06"),
  "C10": ("exploration", "linearizability checking (porcupine) of recorded AddClient/DelClient/SetLocked/read histories against a sequential admission model, with lock-site schedule perturbation, under -race (second pass with a monitor-free perturbation-only mutex wrapper, so that the lock monitor's own synchronisation does not hide races)",
-   "Short concurrent histories on one group per history, all configurations of max-clients x autolock x autokick x time window, a quarter of them with the description file made unreadable and repaired during the history (description reload with a fault), recorded at the call boundary and checked against the admission model; direct invariants (non-operators never exceed max-clients; a refused client is announced to nobody). Held on the schedules observed.",
+   "Short concurrent histories on one group per history, all configurations of max-clients x autolock x autokick x time window, a quarter of them with the description file made unreadable and repaired during the history (description reload with a fault), recorded at the call boundary (queries look the group up inside the recorded operation) and checked against the admission model; direct invariants (non-operators never exceed max-clients; a refused client is announced to nobody). Held on the schedules observed.",
    "Schedules are sampled, not enumerated (perturbation 0-90 % at every instrumented lock operation; the registry phase times each joiner to the moment its own group becomes expirable and holds it for up to 3 ms between registry lookup and insertion); lock changes are issued only by threads holding a joined operator, as the protocol requires.", "5/C10"),
  "C11": ("exploration", "effect-at-other-parties monitor over recorded websocket/HTTP event logs: 24 privileged message kinds x membership states x permission sets against the real server, with a FIFO action-queue barrier for logical quiescence",
    "Every privileged message kind (chat, captions, user messages, op/unop/present/unpresent/shutup/unshutup, kick, identify, lock/unlock, clearchat, setdata, subgroups, record/unrecord, maketoken/edittoken/listtokens, offer) is sent in every membership state (never joined, eight kinds of refused join, joined, left, kicked) under 20 permission sets, one fresh group per case; its effect is read at the OTHER parties (nonce at an observer, joined/user change at the target and all members, kicked + socket closed, probe joins after lock, RECORDING member, token store) and must appear iff the required permission is held; a refusal leaves every other party with no new event; token delegation (never more than held, own group, expiry), cross-group token edits/listing, revocation followed by retries (incl. bursts racing the revocation), WHIP over HTTP with wrong/missing bearer, and random 15-step sequences against a membership/permission model. Held on the cases run.",
